@@ -244,8 +244,9 @@ def run_check(check, tier, seed=0):
         'wall_s': round(wall, 2),
         'violations': nviol,
     }
-    os.makedirs(os.path.join(VERIF, 'evidence'), exist_ok=True)
-    with open(os.path.join(VERIF, 'evidence', '%s.json' % check.pid), 'w') as f:
+    evdir = os.environ.get('VERIF_EVIDENCE_DIR') or os.path.join(VERIF, 'evidence')
+    os.makedirs(evdir, exist_ok=True)
+    with open(os.path.join(evdir, '%s.json' % check.pid), 'w') as f:
         json.dump(ev, f, indent=1, sort_keys=True, default=str)
         f.write('\n')
     print('%s %s: cases=%d/%d evaluations=%d nontrivial=%d states=%d transitions=%d traces=%d '
@@ -261,7 +262,7 @@ def run_check(check, tier, seed=0):
 
 
 def write_replay(pid, sig, message, case):
-    d = os.path.join(VERIF, 'replays')
+    d = os.environ.get('VERIF_REPLAY_DIR') or os.path.join(VERIF, 'replays')
     os.makedirs(d, exist_ok=True)
     path = os.path.join(d, '%s-%016x.json' % (pid, h64((sig, case))))
     with open(path, 'w') as f:
